@@ -202,19 +202,71 @@ __CPROVER_ensures(RET != 0 ==> ENC_BYTES_ARE(buffer, 6, spec_shortest_argbytes(T
 STRING_SERIALIZER(cbor_serialize_bytestring, BYTESTRING_DEF_VALID(item), BYTESTRING_INDEF_VALID(item), BS_META(item), 2, 0x5F);
 STRING_SERIALIZER(cbor_serialize_string, STRING_DEF_VALID(item), STRING_INDEF_VALID(item), ST_META(item), 3, 0x7F);
 
-/* ------------------------------------------------------------------ the dispatcher */
-size_t cbor_serialize(const cbor_item_t *item, unsigned char *buffer, size_t buffer_size)
-__CPROVER_requires(ITEM_R(item) && (unsigned)item->type <= 7u && __CPROVER_w_ok(buffer, buffer_size))
-__CPROVER_assigns(g_z)
-__CPROVER_assigns(buffer_size > 0 : __CPROVER_object_upto(buffer, buffer_size))
-__CPROVER_ensures(RET <= buffer_size);
-
-/* ------------------------------------------------------------------ serialized size (read-only) */
-#define SIZE_TOTAL(hdr) ((g_z.zero || g_z.ovf || __CPROVER_overflow_plus((size_t)(hdr), g_z.sum)) ? (size_t)0 : (size_t)(hdr) + g_z.sum)
 #define SIZE_HDR(item)                                                                                \
   ((item)->type == CBOR_TYPE_ARRAY ? (AR_META(item).type == _CBOR_METADATA_DEFINITE ? 1 + spec_shortest_argbytes(AR_META(item).end_ptr) : 2) \
    : (item)->type == CBOR_TYPE_MAP ? (MP_META(item).type == _CBOR_METADATA_DEFINITE ? 1 + spec_shortest_argbytes(MP_META(item).end_ptr) : 2) \
    : (item)->type == CBOR_TYPE_TAG ? 1 + spec_shortest_argbytes(TG_META(item).value) : 2)
+
+/* ------------------------------------------------------------------ the dispatcher */
+/* per-type preconditions (the per-type serializer's own), result bounded by the window, frame = the window */
+#define SER_HDR(item)                                                                                 \
+  ((item)->type == CBOR_TYPE_ARRAY ? (AR_META(item).type == _CBOR_METADATA_DEFINITE ? 1 + spec_shortest_argbytes(AR_META(item).end_ptr) : 1) \
+   : (item)->type == CBOR_TYPE_MAP ? (MP_META(item).type == _CBOR_METADATA_DEFINITE ? 1 + spec_shortest_argbytes(MP_META(item).end_ptr) : 1) \
+   : (item)->type == CBOR_TYPE_TAG ? 1 + spec_shortest_argbytes(TG_META(item).value) : 1)
+#define NODE_REQUIRES(item, HDR)                                                                      \
+  __CPROVER_requires(ITEM_R(item) && (unsigned)item->type <= 7u && SER_GHOST_INIT)                    \
+  __CPROVER_requires(IS_INT(item) ==> INT_VALID(item))                                                \
+  __CPROVER_requires(item->type == CBOR_TYPE_FLOAT_CTRL ==> FLOAT_CTRL_VALID(item))                   \
+  __CPROVER_requires(item->type == CBOR_TYPE_BYTESTRING ==> (BYTESTRING_DEF_VALID(item) || BYTESTRING_INDEF_VALID(item))) \
+  __CPROVER_requires(item->type == CBOR_TYPE_STRING ==> (STRING_DEF_VALID(item) || STRING_INDEF_VALID(item))) \
+  __CPROVER_requires(item->type == CBOR_TYPE_ARRAY ==>                                                \
+                     (ARRAY_VALID(item) && g_zc.slots == AR_SLOTS(item) && g_zc.pairs == NULL && g_zc.n == AR_META(item).end_ptr)) \
+  __CPROVER_requires(item->type == CBOR_TYPE_MAP ==>                                                  \
+                     (MAP_VALID(item) && g_zc.slots == NULL && g_zc.pairs == MP_PAIRS(item) && g_zc.n == MP_META(item).end_ptr)) \
+  __CPROVER_requires(item->type == CBOR_TYPE_TAG ==>                                                  \
+                     (TAG_VALID(item) && g_zc.slots == (cbor_item_t **)&TG_META(item).tagged_item && g_zc.pairs == NULL && g_zc.n == 1)) \
+  __CPROVER_requires(((item->type == CBOR_TYPE_BYTESTRING && BS_META(item).type != _CBOR_METADATA_DEFINITE) || \
+                      (item->type == CBOR_TYPE_STRING && ST_META(item).type != _CBOR_METADATA_DEFINITE)) ==> \
+                     (g_zc.slots == CHUNKS(item)->chunks && g_zc.pairs == NULL && g_zc.n == CHUNKS(item)->chunk_count)) \
+  __CPROVER_requires((item->type == CBOR_TYPE_ARRAY || item->type == CBOR_TYPE_MAP || item->type == CBOR_TYPE_TAG || \
+                      (item->type == CBOR_TYPE_BYTESTRING && BS_META(item).type != _CBOR_METADATA_DEFINITE) || \
+                      (item->type == CBOR_TYPE_STRING && ST_META(item).type != _CBOR_METADATA_DEFINITE)) ==> \
+                     g_zc.hdr == HDR(item))
+
+size_t cbor_serialize(const cbor_item_t *item, unsigned char *buffer, size_t buffer_size)
+NODE_REQUIRES(item, SER_HDR)
+__CPROVER_requires(__CPROVER_w_ok(buffer, buffer_size))
+__CPROVER_requires(!g_s.valid || !((item->type == CBOR_TYPE_BYTESTRING && BS_META(item).type == _CBOR_METADATA_DEFINITE && g_k < BS_META(item).length) ||
+                                   (item->type == CBOR_TYPE_STRING && ST_META(item).type == _CBOR_METADATA_DEFINITE && g_k < ST_META(item).length)) ||
+                   item->data[g_k] == g_s.byte)
+__CPROVER_assigns(g_z)
+__CPROVER_assigns(buffer_size > 0 : __CPROVER_object_upto(buffer, buffer_size))
+__CPROVER_ensures(RET <= buffer_size)
+/* leaves and definite strings: exactly the per-type result (what cbor_serialize_alloc relies on) */
+__CPROVER_ensures(IS_INT(item) ==> RET == (buffer_size >= 1 + INT_ARGBYTES(item) ? (size_t)(1 + INT_ARGBYTES(item)) : (size_t)0))
+__CPROVER_ensures(item->type == CBOR_TYPE_FLOAT_CTRL ==> RET == (buffer_size >= 1 + FL_ARGBYTES(item) ? (size_t)(1 + FL_ARGBYTES(item)) : (size_t)0))
+__CPROVER_ensures((item->type == CBOR_TYPE_BYTESTRING && BS_META(item).type == _CBOR_METADATA_DEFINITE) ==>
+                  RET == ((DEF_STR_TOTAL_OK(BS_META(item).length) && buffer_size >= 1 + spec_shortest_argbytes(BS_META(item).length) + BS_META(item).length)
+                              ? 1 + spec_shortest_argbytes(BS_META(item).length) + BS_META(item).length : (size_t)0))
+__CPROVER_ensures((item->type == CBOR_TYPE_STRING && ST_META(item).type == _CBOR_METADATA_DEFINITE) ==>
+                  RET == ((DEF_STR_TOTAL_OK(ST_META(item).length) && buffer_size >= 1 + spec_shortest_argbytes(ST_META(item).length) + ST_META(item).length)
+                              ? 1 + spec_shortest_argbytes(ST_META(item).length) + ST_META(item).length : (size_t)0));
+
+/* cbor_serialize_alloc (C06, C07): on failure *buffer is NULL and *buffer_size is 0 and nothing stays allocated;
+ * on success a block of exactly the computed size holds exactly the serialization */
+size_t cbor_serialize_alloc(const cbor_item_t *item, unsigned char **buffer, size_t *buffer_size)
+NODE_REQUIRES(item, SIZE_HDR)
+__CPROVER_requires(ALLOC_MODEL_BOUND && __CPROVER_w_ok(buffer, sizeof(*buffer)) &&
+                   (buffer_size == NULL || __CPROVER_w_ok(buffer_size, sizeof(*buffer_size))))
+__CPROVER_assigns(ALLOC_GHOSTS, g_z, *buffer)
+__CPROVER_assigns(buffer_size != NULL : *buffer_size)
+__CPROVER_ensures(RET == 0 ==> (*buffer == NULL && (buffer_size == NULL || *buffer_size == 0) && g_live == OLD(g_live)))
+__CPROVER_ensures(RET == 0 || (__CPROVER_is_fresh(*buffer, RET) && (buffer_size == NULL || *buffer_size == RET) &&
+                               g_last_req == RET && g_live == OLD(g_live) + 1))
+__CPROVER_ensures(g_malloc_calls <= OLD(g_malloc_calls) + 1 && g_realloc_calls == OLD(g_realloc_calls) && g_free_calls == OLD(g_free_calls));
+
+/* ------------------------------------------------------------------ serialized size (read-only) */
+#define SIZE_TOTAL(hdr) ((g_z.zero || g_z.ovf || __CPROVER_overflow_plus((size_t)(hdr), g_z.sum)) ? (size_t)0 : (size_t)(hdr) + g_z.sum)
 size_t cbor_serialized_size(const cbor_item_t *item)
 __CPROVER_requires(ITEM_R(item) && (unsigned)item->type <= 7u && SER_GHOST_INIT)
 __CPROVER_requires(IS_INT(item) ==> INT_VALID(item))
